@@ -215,6 +215,13 @@ def main():
     ctx = Ctx(prop, tier, seed)
     shutil.rmtree(ctx.workdir, ignore_errors=True)
     os.makedirs(ctx.workdir, exist_ok=True)
+    # temporary files of this run (multiprocessing manager sockets, tempfile users in the library and in
+    # subprocesses) live below the work directory and go away with it, also when a child was killed
+    tmpd = os.path.join(ctx.workdir, "tmp")
+    os.makedirs(tmpd, exist_ok=True)
+    os.environ["TMPDIR"] = tmpd
+    import tempfile
+    tempfile.tempdir = tmpd
     try:
         mod = importlib.import_module("props." + prop.lower())
         ok, out = coqrun.ensure_build(ctx.log)
